@@ -389,7 +389,7 @@ def c07(res, tier, deadline):
     res.assumptions = COMMON_ASSUMPTIONS + [
         "a method is unregistered only after its definitions; a definition is registered only while its method is",
         "re-registration models a library reload: the record and its id lists are fresh"]
-    d0, d1 = (5, 4) if tier == "quick" else (6, 5)
+    d0, d1 = (5, 4) if tier == "quick" else (8, 7)
     runs = []
     for tag in ("rel", "dbg", "int", "dfr", "map", "ind", "dfh"):
         dd0, dd1 = (d0, d1) if tag in ("rel", "dfr") else (d0 - 1, d1 - 1)
